@@ -312,6 +312,13 @@ func (c *CoreRun) parkedLike(prefix string) string {
 // exec runs one labelled step; returns "" or the reason it could not be executed.
 func (c *CoreRun) exec(l map[string]any) string {
 	a := str(l["a"])
+	if a == "Flush" {
+		if c.up {
+			return "process is up"
+		}
+		c.slog[num(l["vb"])-1] = nil
+		return ""
+	}
 	if a != "Boot" && (!c.up || c.r == nil) {
 		return "process is down"
 	}
@@ -571,10 +578,16 @@ func (c *CoreRun) kill() {
 	c.up = false
 }
 
+// OnStep, if set, is told when a step begins and when its trace line is complete.
+var OnStep func(begin bool, i int, tl *TraceLine)
+
 // Run executes the schedule and returns the recorded trace.
 func (c *CoreRun) Run() []TraceLine {
 	for i := range c.sch.Steps {
 		st := &c.sch.Steps[i]
+		if OnStep != nil {
+			OnStep(true, i+1, nil)
+		}
 		tl := TraceLine{Run: c.sch.ID, I: i + 1, L: st.L}
 		wasUp := c.up
 		var rOld *riga.Rig = c.r
@@ -610,12 +623,15 @@ func (c *CoreRun) Run() []TraceLine {
 		}
 		tl.Evs = evs
 		if reason == "" && st.Post != nil {
-			tl.Diff = diffStep(*st, tl)
+			tl.Diff = DiffStep(*st, tl)
 			if tl.Diff != "" {
 				c.diverged = true
 			}
 		}
 		c.lines = append(c.lines, tl)
+		if OnStep != nil {
+			OnStep(false, i+1, &c.lines[len(c.lines)-1])
+		}
 	}
 	if c.r != nil {
 		c.r.S.Kill()
@@ -623,9 +639,9 @@ func (c *CoreRun) Run() []TraceLine {
 	return c.lines
 }
 
-// diffStep compares prediction and observation. Events emitted by concurrent goroutines within one
+// DiffStep compares prediction and observation. Events emitted by concurrent goroutines within one
 // step have no defined order, so events are compared as multisets.
-func diffStep(st Step, tl TraceLine) string {
+func DiffStep(st Step, tl TraceLine) string {
 	want := make([]string, 0, len(st.Evs))
 	for _, e := range st.Evs {
 		want = append(want, Canon(e))
